@@ -20,7 +20,10 @@ def sh(cmd, cwd=None, env=None, timeout=3000):
     return p.returncode, p.stdout + p.stderr
 
 
-def worker(wt, mine):
+def worker(wt, mine, idx):
+    # every worker has its own copy of the checks: the Lean phase of a run holds a lock on its lake project
+    my_checks = f"{check_dir.rstrip('/')}_w{idx}"
+    sh(f"rsync -a --delete {check_dir.rstrip('/')}/ {my_checks}/")
     for name in mine:
         pid = name.split("-")[0]
         meta = {}
@@ -29,22 +32,22 @@ def worker(wt, mine):
         except Exception:  # noqa: BLE001
             pass
         tier = "thorough" if meta.get("detected_by") == "thorough" else "quick"
-        sh("git checkout -- psec", cwd=wt)
+        sh("git checkout -- psec; git clean -fdq psec", cwd=wt)
         rc, o = sh(f"git apply {VERIF}/seeded/{name}/patch.diff", cwd=wt)
         if rc != 0:
             rec = {"rc": None, "note": "patch does not apply: " + o[-200:]}
         else:
-            rc, o = sh(f"./check {pid} --tier {tier}", cwd=check_dir, env={"PSEC_REPO": wt, "VERIF_SEED": "7"})
+            rc, o = sh(f"./check {pid} --tier {tier}", cwd=my_checks, env={"PSEC_REPO": wt, "VERIF_SEED": os.environ.get("SEED", "7")})
             lines = [l for l in o.splitlines() if l.startswith(("VIOLATION", "  detail", "INFRA"))]
             rec = {"rc": rc, "tier": tier, "violations": sum(l.startswith("VIOLATION") for l in lines), "first": (lines[1] if len(lines) > 1 else "")[:300],
                    "no_failing_input": any("no-failing-input-found" in l for l in lines)}
-        sh("git checkout -- psec", cwd=wt)
+        sh("git checkout -- psec; git clean -fdq psec", cwd=wt)
         with lock:
             results[name] = rec
             print(name, rec.get("rc"), rec.get("tier"), rec.get("first", "")[:120], flush=True)
 
 
-ths = [threading.Thread(target=worker, args=(wt, names[i::len(wts)])) for i, wt in enumerate(wts)]
+ths = [threading.Thread(target=worker, args=(wt, names[i::len(wts)], i)) for i, wt in enumerate(wts)]
 for t in ths:
     t.start()
 for t in ths:
